@@ -219,6 +219,13 @@ fn fault_space(ctx: &mut Ctx, s: &Sample, p: &mut Prng, other: &Sample, small_s:
     if let Some(l) = lib_pk(&negpk) {
         probe(ctx, s, &l, &negpk, s.id, &s.id_str, &s.msg, &s.sig, "key_negated", false);
     }
+    // the valid signature followed by junk, at lengths far beyond 130 (a length test done on a truncated count wraps)
+    for len in [192usize, 256, 257, 320, 512, 576, 1024, 1088, 4160, 65600, 131136] {
+        let mut v = s.sig.clone();
+        let extra = p.bytes(len - 64);
+        v.extend_from_slice(&extra);
+        probe(ctx, s, &s.lpk, &s.pk, s.id, &s.id_str, &s.msg, &v, "len>>64", true);
+    }
     // every length 0..=130: truncations / extensions of the valid signature, and random bytes
     for len in 0..=130usize {
         if len == 64 {
@@ -253,12 +260,38 @@ pub fn run(ctx: &mut Ctx) {
     for (n, ok) in r2::selftest() {
         ctx.selftest(&n, ok);
     }
-    ctx.require(&["valid_accepted", "bitflip_r", "bitflip_s", "r=0", "s=0", "r=n", "s=n", "s=n+1", "r=2^256-1", "s=2^256-1", "s=n-r", "sG+tP=infinity", "swapped_r_s", "s+n", "s_plus_n_alias", "msg_extended", "msg_bitflip", "id_changed", "key_changed", "len<64", "len>64", "random_pair", "openssl_made", "digest:t=0_equation_satisfied", "digest:valid", "digest:bitflip", "near_miss_r_consistent_s", "id_changed_same_length", "alt_encoding_of_valid_signature", "sample_with_empty_explicit_id", "id_changed_by_whitespace"]);
+    ctx.require(&["valid_accepted", "bitflip_r", "bitflip_s", "r=0", "s=0", "r=n", "s=n", "s=n+1", "r=2^256-1", "s=2^256-1", "s=n-r", "sG+tP=infinity", "swapped_r_s", "s+n", "s_plus_n_alias", "msg_extended", "msg_bitflip", "id_changed", "key_changed", "len<64", "len>64", "random_pair", "openssl_made", "digest:t=0_equation_satisfied", "digest:valid", "digest:bitflip", "near_miss_r_consistent_s", "id_changed_same_length", "alt_encoding_of_valid_signature", "sample_with_empty_explicit_id", "id_changed_by_whitespace", "len>>64", "digest:x1_ge_n_valid"]);
     let c = r2::curve();
     // --- digest level (hook `verif_verify_digest`): clauses no message can be made to reach. (a) t = r + s = 0 mod n with
     // e chosen so that the remaining equation holds (a verifier without the t check accepts); (b) valid and tampered
     // signatures for arbitrary 256-bit e, including e >= n, 0 and 2^256-1, judged by the reference verifier.
     {
+        // a VALID (e, r, s) whose recomputed point has x1 in [n, p) (p - n is about 2^128 wide): built backwards from a curve
+        // point R with x = n + j; P = R + [5]G (nobody knows its private key), s = n - 5, r = 6, t = 1, e = r - x1 mod n
+        if ctx.mine(3) {
+            let mut j = 0u32;
+            let rpt = loop {
+                if let Some(pt) = r2::point_from_x(&(&c.n + j)) {
+                    break pt;
+                }
+                j += 1;
+            };
+            let pkey = r2::add(&Some(rpt.clone()), &r2::mul(&BigUint::from(5u32), &r2::g())).unwrap();
+            let (r, s_) = (BigUint::from(6u32), &c.n - 5u32);
+            let e = (&r + &c.n - (&rpt.0 % &c.n)) % &c.n;
+            let mut sig = r2::b32(&r).to_vec();
+            sig.extend_from_slice(&r2::b32(&s_));
+            ctx.eval();
+            ctx.class("digest:x1_ge_n_valid");
+            if !r2::verify_e(&pkey, &e, &sig) {
+                ctx.violation("harness:digest-level-case-not-as-constructed", json!({"class": "x1_ge_n"}));
+            } else if let Some(lpk) = lib_pk(&pkey) {
+                match guard(|| lpk.verif_verify_digest(&r2::b32(&e), &sig)) {
+                    Outcome::Ret(Ok(())) => {}
+                    o => ctx.violation(&format!("verify(digest):x1_ge_n:valid-signature-rejected:{}", o.class()), json!({"pk": hex::encode(r2::encode(&pkey, false)), "e": hex::encode(r2::b32(&e)), "sig": hx(&sig)})),
+                }
+            }
+        }
         let n = ctx.n(80, 4000);
         let mut pd = ctx.prng("digest");
         for i in 0..n {
